@@ -45,6 +45,8 @@ structure Data where
   deArgs : List String := []
   aux : List ClassIR := []
   imports : List (String × String) := []
+  /-- `reached_missing_optional_assigned`: the local has been assigned in this class's `serialize` -/
+  rmoAssigned : Bool := false
   deriving Repr, Inhabited
 
 /-- `get_type` with enough fuel for the indexed definitions -/
@@ -112,6 +114,10 @@ def validateField (tf : TypeEnv) (ctx : Ctx) (p : FP) : Except GenErr Unit := do
       | none => pure ()
     | _ => pure ()
     if !t.isBasic then throw "hardcoded field values are not allowed for this type"
+    match t with
+    | .int _ => if !PyStr.isdigit h then throw "not a valid integer value"
+    | .bool _ => if h != "true" && h != "false" then throw "not a valid bool value"
+    | _ => pure ()
   match p.name with
   | none => pure ()
   | some n => if (ctx.field? n).isSome then throw s!"cannot redefine {n} field"
@@ -139,9 +145,10 @@ def generateField (tf : TypeEnv) (ctx : Ctx) (d : Data) (p : FP) : Except GenErr
     else
       let expr : InitExpr :=
         match p.hardcoded with
-        | none => if p.arrayField then .tupleOf name else .param name
+        | none => if p.arrayField then .tupleOf name p.optional else .param name
         | some h => match t with
           | .str _ _ => .strLit h
+          | .bool _ => .boolLit (h == "true")
           | _ => .pasted h
       let d := { d with
         getters := d.getters ++ [name],
@@ -151,7 +158,7 @@ def generateField (tf : TypeEnv) (ctx : Ctx) (d : Data) (p : FP) : Except GenErr
       | some l =>
         if (ctx.lenRef? l).isSome then
           match ctx.field? l with
-          | some lf => pure (ctx.setLenRef l true, { d with initBody := d.initBody ++ [.lenOf lf.name name] })
+          | some lf => pure (ctx.setLenRef l true, { d with initBody := d.initBody ++ [.lenOf lf.name name p.optional] })
           | none => throw "KeyError: length field not accessible"
         else pure (ctx, d)
       | none => pure (ctx, d)
@@ -229,8 +236,9 @@ def generateSerialize (tf : TypeEnv) (ctx : Ctx) (d : Data) (p : FP) : Except Ge
           ++ [w] ++ (if p.delimited && p.trailing then [.addBreak] else []))]
     else [w]
   let inner := noneChk ++ lenChk ++ body
-  let ops : List SerOp := if p.optional then [.optGuard ctx.reachedOptional name inner] else inner
+  let ops : List SerOp := if p.optional then [.optGuard (ctx.reachedOptional && d.rmoAssigned) name inner] else inner
   pure { d with
+    rmoAssigned := d.rmoAssigned || p.optional,
     ser := d.ser ++ ops,
     imports := d.imports ++ (if usesErr then serErrImport else []) ++ structImp
       ++ (if p.optional then [("cast", "typing")] else []) }
